@@ -1717,8 +1717,8 @@ class CPF( dfa ):
         result		       += UINT.produce( len( segments ))
         for item in segments:
             result	       += UINT.produce( item.type_id )
-            if item.type_id in cls.ITEM_PARSERS:
-                itmprs		= cls.ITEM_PARSERS[item.type_id] # eg 'unconnected_send', 'communications_service'
+            itmprs		= cls.ITEM_PARSERS.get( item.type_id ) # eg 'unconnected_send', 'communications_service'
+            if itmprs is not None and itmprs.__name__ in item: # an empty item has no payload to produce
                 item.input	= bytearray( itmprs.produce( item[itmprs.__name__] ))
             if 'input' in item:
                 result	       += UINT.produce( len( item.input ))
